@@ -328,7 +328,8 @@ class Interp:
                 frame.vars["$yield"] = []
             live = self.exec_block(node.body, frame, sp.true)
             if is_gen:
-                return list(frame.vars["$yield"])
+                from .symval import GenVal
+                return GenVal(frame.vars["$yield"])
             return self.finish(frame, live)
         finally:
             self.depth -= 1
